@@ -218,6 +218,15 @@ def gen_reasm(tier, r):
             cuts = list(range(size, len(blob), size))[:50]
         pieces = [blob[a:b] for a, b in zip([0] + cuts, cuts + [len(blob)])]
         replies = [ref_encode([(12, p)]) for p in pieces[:-1]] + [ref_encode([(13, pieces[-1])])]
+        if i % 5 == 2:
+            # other items beside a fragment item in one payload (first, a middle or the last payload, before or
+            # after the fragment item): they are part of the reply, e.g. an Error item next to FragmentLast
+            j = r.choice([0, len(pieces) // 2, len(pieces) - 1])
+            frag = (13 if j == len(pieces) - 1 else 12, pieces[j])
+            sibs = r.choice([[(7, b"\x02")], [(6, b"\x04")], [(6, b"\x05"), (7, b"\x06")], [(1, b"id")], [(7, b"")]])
+            replies[j] = ref_encode(sibs + [frag]) if r.random() < 0.5 else ref_encode([frag] + sibs)
+        if i % 40 == 11:
+            replies = [ref_encode([(12, b"\x07\x01\x02")]), ref_encode(items)]   # unterminated buffer, then a plain reply
         if 0.9 < m < 0.93:
             replies = [ref_encode(items)]                   # plain, unfragmented reply
         if 0.93 <= m < 0.95:
@@ -263,26 +272,47 @@ def oracle_dec(bs, exp, impl):
     return None
 
 
+def ref_reasm(replies):
+    """Reference for the pairing reassembly loop, written from its contract (not from the model): payloads are
+    consumed in order; FragmentData (12) values are appended to a buffer and acknowledged, FragmentLast (13) ends
+    the exchange, a payload with neither ends it too; items sent NEXT to a fragment item are part of the reply
+    and come back in front of the items decoded from the buffer (a reassembled item wins over a sibling of the
+    same type); at most 50 payloads."""
+    buf, sib, acks = b"", [], 0
+    for n, rep in enumerate(replies):
+        if n >= 50:
+            return "toomany"
+        items = ref_decode(rep, None)
+        if items is None:
+            return f"fail {acks} parse"
+        d = dict(items)
+        sib += [(k, v) for k, v in items if k not in (12, 13)]
+        if 13 in d or 12 not in d:
+            if 13 in d:
+                buf += d[13]
+            r = ref_decode(buf, None)
+            return f"fail {acks} parse" if r is None else f"done {acks} " + dict_str(dict(sib + r))
+        buf += d[12]
+        acks += 1
+    return "toomany" if len(replies) >= 50 else "crash"
+
+
 def oracle_reasm(replies, impl):
-    """Independent of the model, for plainly fragmented scripts only (every reply is exactly one FragmentData item,
-    the last exactly one FragmentLast item): the result is the decoding of the concatenated pieces, with one
-    acknowledgement per FragmentData reply."""
-    pieces = []
-    for i, rep in enumerate(replies):
-        d = ref_decode(rep, None)
-        want_key = 13 if i == len(replies) - 1 else 12
-        if d is None or len(d) != 1 or d[0][0] != want_key:
-            return None
-        pieces.append(d[0][1])
-    if len(replies) > 50:                     # MAX_REASSEMBLY: longer scripts are refused (modelled, `toomany`)
+    """Independent of the model: the implementation's answer must be the reference's; for plainly fragmented
+    scripts this says the result is the decoding of the concatenated pieces, for payloads that carry other items
+    beside a fragment item it says none of them is lost."""
+    want = ref_reasm(replies)
+    if want == "crash" or impl == want:
         return None
-    items = ref_decode(b"".join(pieces), None)
-    acks = len(replies) - 1
-    want = f"fail {acks} parse" if items is None else f"done {acks} " + dict_str(dict(items))
-    if impl != want:
-        return ("reasm:wrong-result", f"fragmented reply of {len(replies)} pieces reassembled to {impl[:80]}, "
-                f"the pieces concatenated decode to {want[:80]}")
-    return None
+    lost = ""
+    if want.startswith("done") and impl.startswith("done"):
+        wd = set(want.split(" ")[2:])
+        gd = set(impl.split(" ")[2:])
+        missing = sorted(wd - gd)
+        if missing:
+            lost = f" (items sent but not returned: {' '.join(missing)[:80]})"
+    return ("reasm:wrong-result", f"reply of {len(replies)} payloads reassembled to {impl[:80]}, the reference "
+            f"gives {want[:80]}{lost}")
 
 
 # ---------------------------------------------------------------- kernel cross-check of the extracted driver
